@@ -252,7 +252,7 @@ class C12(Prop):
                'spawn_cost': 0.001, 'step_cost': 0.0, 'watchers': [],
                'default_mix': [{'p': 1, 'label': 'obedient'}]}
         names = rng.sample(NAMES, rng.randrange(0, 4))
-        v = {'watchers': [{'name': n, 'np': rng.choice([0, 1, 2, 3]),
+        v = {'watchers': [{'name': n, 'np': rng.choice([0, 1, 1, 2, 2, 3]),
                            'opts': {'graceful_timeout': rng.choice(
                                [0, 0.05, 0.2])}} for n in names],
              'env': rng.choice([None, {'GLOBAL': 'g1'}]), 'edit': 'initial'}
@@ -282,7 +282,7 @@ class C12(Prop):
                 ws.pop(rng.randrange(len(ws)))
             elif kind == 'np':
                 w = rng.choice(ws)
-                w['np'] = rng.choice([x for x in (0, 1, 2, 3, 4)
+                w['np'] = rng.choice([x for x in (0, 1, 1, 2, 2, 3, 3, 4, 4)
                                       if x != w['np']])
             elif kind == 'cmd':
                 w = rng.choice(ws)
